@@ -35,7 +35,7 @@ class NoMatch(Exception):
     pass
 
 
-TYPES = ["int", "str", "list", "float", "rational", "number", "anything", "nulltype", "dict", "vector", "Foo", "sat_even", "sat_pos"]
+TYPES = ["int", "str", "list", "float", "rational", "number", "anything", "nulltype", "dict", "vector", "Foo", "sat_even", "sat_pos", "sat_gt3", "sat_self"]
 TYPED_TYPES = TYPES + ["stream", "bytes"]
 
 
@@ -45,6 +45,22 @@ class StreamV:
 
 def is_type(T, v):
     if T == "anything":
+        return True
+    if T == "sat_gt3":
+        # the predicate answers 1 or null (an `if` without else): null counts as "does not satisfy"
+        return isinstance(v, int) and not isinstance(v, bool) and v > 3
+    if T == "sat_self":
+        # the predicate returns the value itself: the value's truthiness decides
+        if v is None:
+            return False
+        if isinstance(v, (int, float, Fraction)):
+            return v != 0
+        if isinstance(v, (str, list, bytes)):
+            return len(v) > 0
+        if isinstance(v, Vec):
+            return len(v.xs) > 0
+        if isinstance(v, NDict):
+            return len(v) > 0
         return True
     if isinstance(v, (StreamV, bytes)) and T not in ("stream", "bytes"):
         return T == "sat_even" and False
@@ -81,7 +97,8 @@ def is_type(T, v):
     raise ValueError(T)
 
 
-TSRC = {"sat_even": "satisfying(even)", "sat_pos": "satisfying(\\t -> t > 0)"}
+TSRC = {"sat_even": "satisfying(even)", "sat_pos": "satisfying(\\t -> t > 0)", "sat_gt3": "satisfying(\\t -> if (t is int and t > 3) 1)",
+        "sat_self": "satisfying(\\t -> t)"}
 
 
 def seq_items(v):
@@ -206,7 +223,10 @@ def match(p, v, b):
         else:
             raise NoMatch()
     elif t == "between":
-        if not isinstance(v, (int, float, Fraction)) or not (p[1] < v < p[3]):
+        o1, o2 = (p[4], p[5]) if len(p) > 4 else ("<", "<")
+        if not isinstance(v, (int, float, Fraction)) or isinstance(v, bool):
+            raise NoMatch()
+        if not ((p[1] < v if o1 == "<" else p[1] <= v) and (v < p[3] if o2 == "<" else v <= p[3])):
             raise NoMatch()
         if p[2]:
             b[p[2]] = v
@@ -258,7 +278,8 @@ def ppat(p, top=False):
     if t == "div":
         return "(%s / %s)" % (p[1], p[2])
     if t == "between":
-        return "(%d < %s < %d)" % (p[1], p[2] or "_", p[3])
+        o1, o2 = (p[4], p[5]) if len(p) > 4 else ("<", "<")
+        return "(%d %s %s %s %d)" % (p[1], o1, p[2] or "_", o2, p[3])
     raise ValueError(t)
 
 
@@ -718,7 +739,7 @@ def s_pattern_case(draw):
             # sequence patterns iterate dict keys, which this matcher does not model
             T = draw(st.sampled_from([t_ for t_ in TYPES if t_ not in ("vector", "dict")]))
             v = {"int": 4, "str": "s", "list": [1, 2], "float": 1.5, "rational": Fraction(1, 2), "number": 2, "anything": "x", "nulltype": None,
-                 "dict": NDict([(1, 2)]), "vector": Vec([1, 2]), "Foo": Inst("Foo", [1, 2]), "sat_even": 4, "sat_pos": 3}[T]
+                 "dict": NDict([(1, 2)]), "vector": Vec([1, 2]), "Foo": Inst("Foo", [1, 2]), "sat_even": 4, "sat_pos": 3, "sat_gt3": 5, "sat_self": [0]}[T]
             return ["ann", ["n", fresh()], T], v
         if k == "struct":
             p1, v1 = gen(d - 1, allow_lit)
@@ -750,7 +771,12 @@ def s_pattern_case(draw):
             return ["div", fresh(), fresh()], draw(st.sampled_from([Fraction(3, 4), Fraction(-1, 2), 5, Fraction(6, 1)]))
         if k == "between":
             lo = draw(st.integers(0, 3))
-            return ["between", lo, draw(st.sampled_from([None, fresh()])), lo + 4], lo + draw(st.integers(1, 3))
+            o1, o2 = draw(st.sampled_from(["<", "<="])), draw(st.sampled_from(["<", "<="]))
+            # each link of the chain has its own operator; values sit on and next to the bounds
+            first = lo + (1 if o1 == "<" else 0)
+            last = lo + 4 - (1 if o2 == "<" else 0)
+            v = draw(st.sampled_from([first, last, first, last, lo + 2]))
+            return ["between", lo, draw(st.sampled_from([None, fresh()])), lo + 4, o1, o2], v
         raise ValueError(k)
 
     def mutate(v):
